@@ -203,6 +203,44 @@ def np_qr(A, mode='reduced'):
                     jj, s = rowof[i]
                     R[jj, j] = s * a
             return Q, R
+    # every column holds at most one non-zero entry (columns may share their row or be
+    # zero: rank deficient): Householder reflectors of multiples of basis vectors are
+    # signed transpositions, so Q is a signed permutation and R = Q^T A is upper
+    # triangular; unused columns of Q are the remaining basis vectors
+    cols = []
+    single = True
+    for j in range(n):
+        nz = [i for i in range(m) if not _is_zero(A[i, j])]
+        if len(nz) > 1:
+            single = False
+            break
+        cols.append(nz[0] if nz else None)
+    if single:
+        k = min(m, n)
+        Q = _zeros((m, k))
+        R = _zeros((k, n))
+        qcol = {}                       # row -> (column of Q, sign)
+        for j in range(n):
+            i = cols[j]
+            if i is None:
+                continue
+            if i not in qcol:
+                if len(qcol) >= k:
+                    single = False      # more distinct rows than columns of Q: not this form
+                    break
+                s = _sign('qs')
+                qcol[i] = (len(qcol), s)
+                Q[i, len(qcol) - 1] = s
+            q, s = qcol[i]
+            if q > j:
+                single = False
+                break
+            R[q, j] = s * Sym.lift(A[i, j])
+        if single:
+            free = [i for i in range(m) if i not in qcol]
+            for q in range(len(qcol), k):
+                Q[free.pop(0), q] = _sign('qs')
+            return Q, R
     # columns with pairwise disjoint supports (every row holds at most one non-zero),
     # all columns non-zero, tall: Q = normalised columns, R = diag(column norms)
     if m >= n and all(sum(0 if _is_zero(A[i, j]) else 1 for j in range(n)) <= 1 for i in range(m)) and \
@@ -321,11 +359,19 @@ def np_svd(A, full_matrices=True, compute_uv=True, hermitian=False):
     A = _obj(A)
     m, n = A.shape
     k = min(m, n)
+    if hermitian:
+        # numpy's hermitian SVD goes through eigh, which reads the lower triangle only:
+        # the result is the SVD of the matrix symmetrised from its lower triangle
+        if m != n:
+            raise Unmodelled('hermitian svd of a non-square matrix')
+        S = A.copy()
+        for i in range(m):
+            for j in range(i + 1, n):
+                S[i, j] = A[j, i]
+        A = S
     fac = _lookup('svd', A)
     if fac is not None:
         return fac[0].copy(), fac[1].copy(), fac[2].copy()
-    if hermitian:
-        raise Unmodelled('hermitian svd')
     ent = _genperm(A)
     if ent is not None:
         trip = []
